@@ -231,6 +231,112 @@ def extract(repo):
     return out
 
 
+
+# ------------------------------------------------------------------------------------------------
+# translation of the closed-form limiter functions of xnum.py into Lean definitions over a field
+
+class Untranslatable(Exception):
+    pass
+
+
+def lean_num(fr):
+    fr = Fraction(fr)
+    if fr.denominator == 1:
+        return "(%d : α)" % fr.numerator if fr.numerator < 0 else "%d" % fr.numerator
+    return "((%d : α) / %d)" % (fr.numerator, fr.denominator)
+
+
+def tr_expr(node, src, names):
+    """numpy expression -> Lean term over α (where(c,x,y) = if c then x else y, minimum/maximum = min/max, …)"""
+    if isinstance(node, ast.Constant):
+        return lean_num(lit(node, src))
+    if isinstance(node, ast.Name):
+        if node.id in names:
+            return node.id
+        raise Untranslatable("unknown name %s" % node.id)
+    if isinstance(node, ast.UnaryOp) and isinstance(node.op, ast.USub):
+        return "(-%s)" % tr_expr(node.operand, src, names)
+    if isinstance(node, ast.BinOp):
+        a, b = tr_expr(node.left, src, names), None
+        if isinstance(node.op, ast.Pow):
+            if isinstance(node.right, ast.Constant) and isinstance(node.right.value, int):
+                return "(%s ^ %d)" % (a, node.right.value)
+            raise Untranslatable("non-integer power")
+        b = tr_expr(node.right, src, names)
+        op = {ast.Add: '+', ast.Sub: '-', ast.Mult: '*', ast.Div: '/'}.get(type(node.op))
+        if op is None:
+            raise Untranslatable("operator %s" % type(node.op).__name__)
+        return "(%s %s %s)" % (a, op, b)
+    if isinstance(node, ast.Compare) and len(node.ops) == 1:
+        op = {ast.LtE: '≤', ast.Lt: '<', ast.GtE: '≥', ast.Gt: '>'}.get(type(node.ops[0]))
+        if op is None:
+            raise Untranslatable("comparison")
+        return "(%s %s %s)" % (tr_expr(node.left, src, names), op, tr_expr(node.comparators[0], src, names))
+    if isinstance(node, ast.Call):
+        f = node.func
+        fname = f.attr if isinstance(f, ast.Attribute) else (f.id if isinstance(f, ast.Name) else None)
+        args = [tr_expr(x, src, names) for x in node.args]
+        if fname == 'where' and len(args) == 3:
+            return "(if %s then %s else %s)" % tuple(args)
+        if fname == 'minimum' and len(args) == 2:
+            return "(min %s %s)" % tuple(args)
+        if fname == 'maximum' and len(args) == 2:
+            return "(max %s %s)" % tuple(args)
+        if fname in ('abs', 'absolute') and len(args) == 1:
+            return "|%s|" % args[0]
+        if fname == 'sign' and len(args) == 1:
+            return "(Flowdyn.sgn %s)" % args[0]
+        raise Untranslatable("call %s" % fname)
+    raise Untranslatable(ast.dump(node)[:60])
+
+
+def tr_function(fn, src):
+    """straight-line function (assignments then a return) -> Lean definition text"""
+    names = [a.arg for a in fn.args.args]
+    lines = []
+    body = list(fn.body)
+    if body and isinstance(body[0], ast.Expr) and isinstance(getattr(body[0], 'value', None), ast.Constant):
+        body = body[1:]
+    for st in body:
+        if isinstance(st, ast.Assign) and len(st.targets) == 1 and isinstance(st.targets[0], ast.Name):
+            lines.append("  let %s : α := %s" % (st.targets[0].id, tr_expr(st.value, src, names)))
+            names.append(st.targets[0].id)
+        elif isinstance(st, ast.Return):
+            lines.append("  " + tr_expr(st.value, src, names))
+            break
+        else:
+            raise Untranslatable("statement %s" % type(st).__name__)
+    return "def %s (%s : α) : α :=\n%s\n" % (fn.name, " ".join(a.arg for a in fn.args.args), "\n".join(lines))
+
+
+def limiters_to_lean(repo):
+    p = os.path.join(repo, 'flowdyn', 'xnum.py')
+    src = open(p).read()
+    tree = ast.parse(src)
+    out = ["""/-
+GENERATED by harness/gen_tables.py: mechanical translation of the limiter functions of flowdyn/xnum.py
+(np.where -> if/then/else, np.minimum/np.maximum -> min/max, np.abs -> |.|, np.sign -> sgn) -- do not edit.
+`Flowdyn/Props/C12.lean`... the bridge theorems `Flowdyn.GenLim.*_eq` (Flowdyn/Props/C12gen.lean) prove
+that these are the hand-written models the C12 theorems are about.
+-/
+import Flowdyn.Model.Limiters
+
+namespace Flowdyn.GenLim
+variable {α : Type} [Field α] [LinearOrder α] [IsStrictOrderedRing α]
+
+"""]
+    found = []
+    for node in tree.body:
+        if isinstance(node, ast.FunctionDef) and node.name in ('minmod', 'vanalbada', 'vanleer', 'superbee'):
+            out.append(tr_function(node, src) + "\n")
+            found.append(node.name)
+    missing = [n for n in ('minmod', 'vanalbada', 'vanleer', 'superbee') if n not in found]
+    if missing:
+        raise Untranslatable("limiter(s) missing: %s" % missing)
+    out.append("end Flowdyn.GenLim\n")
+    return "".join(out)
+
+
 LEAN_HEADER = """/-
 GENERATED by harness/gen_tables.py from /repo's source text -- do not edit.
 Regenerated on every check run; the theorems in Flowdyn/Props that mention these constants are
@@ -306,9 +412,15 @@ def main():
     try:
         ex = extract(a.repo)
         txt = to_lean(ex)
-    except (ExtractError, SyntaxError, OSError, KeyError) as e:
+        limtxt = limiters_to_lean(a.repo)
+    except (ExtractError, Untranslatable, SyntaxError, OSError, KeyError) as e:
         sys.stderr.write("gen_tables: extraction failed: %s\n" % e)
         return 3
+    limout = os.path.join(os.path.dirname(a.out), 'Limiters.lean')
+    oldlim = open(limout).read() if os.path.exists(limout) else None
+    if oldlim != limtxt:
+        with open(limout, 'w') as f:
+            f.write(limtxt)
     old = open(a.out).read() if os.path.exists(a.out) else None
     if old != txt:
         with open(a.out, 'w') as f:
